@@ -31,8 +31,67 @@ fn next_n(pat: &str, b: usize) -> usize {
 	}
 }
 
+/// a position or an orientation of a spatial scene tweened linearly; what is heard is the level of the left channel, which is
+/// not linear in the tweened quantity: the two ends are measured, the monitor judges continuity and the end value
+fn run_spatial(sc: &Value, t: &mut Tracer) {
+	use kira::track::SpatialTrackBuilder;
+	let param = sc["param"].as_str().unwrap();
+	let b = sc["b"].as_u64().unwrap() as usize;
+	let pat = sc["pat"].as_str().unwrap();
+	let d = sc["d"].as_u64().unwrap();
+	let mut sim = Sim::new(Capacities::default(), MainTrackBuilder::new(), b, SR);
+	let mut listener = sim.manager.add_listener(glam::Vec3::ZERO, glam::Quat::IDENTITY).unwrap();
+	let mut track = sim
+		.manager
+		.add_spatial_sub_track(
+			listener.id(),
+			glam::Vec3::new(3.0, 0.0, 1.0),
+			SpatialTrackBuilder::new().distances((1.0, 10.0)).attenuation_function(Some(Easing::Linear)).spatialization_strength(0.75),
+		)
+		.unwrap();
+	let frames: Vec<Frame> = (0..64).map(|_| Frame::from_mono(0.4)).collect();
+	let _snd = track
+		.play(StaticSoundData { sample_rate: SR, frames: frames.into(), settings: StaticSoundSettings::new().loop_region(..), slice: None })
+		.unwrap();
+	let _ = sim.callback(b);
+	let base = sim.callback(b).out[0] as f64;
+	match param {
+		"listener_turn" => listener.set_orientation(glam::Quat::from_rotation_y(std::f32::consts::FRAC_PI_2), tw(d)),
+		"listener_move" => listener.set_position(glam::Vec3::new(-4.0, 0.0, 0.0), tw(d)),
+		"emitter_move" => track.set_position(glam::Vec3::new(6.0, 0.0, -2.0), tw(d)),
+		x => panic!("unknown param {x}"),
+	}
+	let total = d as usize + 4 * b + 8;
+	let mut gs: Vec<i64> = vec![];
+	let mut panicked = None;
+	while gs.len() < total {
+		let n = next_n(pat, b);
+		let res = sim.callback(n);
+		if let Some(m) = res.panicked {
+			panicked = Some(m);
+			break;
+		}
+		for k in 0..n {
+			let x = res.out[2 * k] as f64 / base;
+			gs.push(if x <= 0.0 { -9999 } else { (2000.0 * x.log10()).round() as i64 });
+		}
+	}
+	let to = *gs.last().unwrap_or(&0);
+	t.reset(json!({"param": param, "b": b, "pat": pat, "d": d, "from": 0, "to": to, "paused": false, "frz": false, "dbl": false, "free": true, "src": sc["src"]}));
+	for (f, g) in gs.iter().enumerate() {
+		t.ev(json!({"a": "fr", "f": f, "pf": 0, "g": g}));
+	}
+	if let Some(m) = panicked {
+		t.ev(json!({"a": "panic", "who": "audio", "msg": m}));
+	}
+	t.ev(json!({"a": "end"}));
+}
+
 fn run_scenario(sc: &Value, t: &mut Tracer) {
 	let param = sc["param"].as_str().unwrap();
+	if matches!(param, "listener_turn" | "listener_move" | "emitter_move") {
+		return run_spatial(sc, t);
+	}
 	let b = sc["b"].as_u64().unwrap() as usize;
 	let pat = sc["pat"].as_str().unwrap();
 	let d = sc["d"].as_u64().unwrap();
